@@ -16,7 +16,8 @@ RULE = ('random caption sets (1-3 languages, 0-7 captions, runs of identical (st
 ANCHORS = ['pycaption.base:CaptionSet.adjust_caption_timing',
            'pycaption.base:merge_concurrent_captions', 'pycaption.base:merge']
 REQUIRE = {'adjust_dropped_some': 5, 'adjust_dropped_all': 1, 'merge_runs': 10,
-           'merge_near_runs': 5, 'merge_run_at_start': 2, 'merge_run_at_end': 2}
+           'merge_near_runs': 5, 'merge_run_at_start': 2, 'merge_run_at_end': 2,
+           'captions_without_visible_text': 50, 'captions_ending_with_break': 50}
 
 SKEWS = [1, 1.0, 0.5, 2, 4, 0.25, 1.5, 1.001, 0.999, 1.1, 3.999, 0.04]
 
@@ -49,6 +50,16 @@ def gen_set(rng, tag):
                 if rng.random() < 0.2:
                     nodes.insert(0, ['s', True, {'italics': True}])
                     nodes.append(['s', False, {'italics': True}])
+                k = rng.random()
+                if k < 0.12:
+                    nodes.append(['b'])                   # ends with a line break
+                elif k < 0.2:
+                    nodes.insert(0, ['b'])                # starts with one
+                elif k < 0.3:
+                    # a caption without visible text
+                    nodes = rng.choice([[['t', ' ']], [['b']], [['t', '\u00a0']],
+                                        [['s', True, {'italics': True}], ['s', False, {'italics': True}]],
+                                        [['t', '']]])
                 caps.append({'start': aa, 'end': bb, 'nodes': nodes,
                              'style': rng.choice([None, {'class': 'x'}]), 'layout': None})
                 i += 1
@@ -136,6 +147,12 @@ def _close(a, b):
 def check(case, ctx):
     from pycaption.base import merge_concurrent_captions
     spec = case['set']
+    for l in spec['langs']:
+        for c in l['captions']:
+            if not ''.join(n[1] for n in c['nodes'] if n[0] == 't').strip():
+                ctx.count('captions_without_visible_text')
+            if c['nodes'][-1][0] == 'b':
+                ctx.count('captions_ending_with_break')
     cs = dump.mk_caption_set(spec)
     fails = []
     if case['op'] == 'adjust':
